@@ -102,6 +102,11 @@ FEATURES = [
     ("dead_def_hoisted", r"# hoisted-after-jump"),
     # one string literal with the same placeholder at least twice; the C04 idiom around it
     ("placeholder_twice", r"\{\s*(\w+)\s*\}[^\"'\n]*\{\s*\1\s*\}"), ("placeholder_twice_idiom", r"do show\(v\)"),
+    # effect order (progen.rs `impure_chain`, `operand_order`): a mutating method / index assignment whose receiver chain
+    # holds an impure index expression; a later operand that changes the variable an earlier operand has read;
+    # `retype_program`: one name re-declared in the same block at another literal type, capturing functions in between
+    ("impure_index_chain", r"make idx get \["), ("impure_index_receiver", r"\[[^\]\n]*(?:\.pop\(\)|take\(\)|slot\(\)|step\(\)|say\(\d\))[^\]\n]*\]\S*(?:\.(?:push|pop|reverse)\(| get )"),
+    ("operand_order", r"make kept get \[0\]"), ("redeclare_other_type", r"do (?:rd|ph|pp|ty|wr|nr)\d+\("),
 ]
 FEATURES = [(n, re.compile(r)) for n, r in FEATURES]
 
